@@ -34,7 +34,7 @@ from pyvc.loops import LoopSpec
 from pyvc.harness import native_call, Sink
 from spec import wire
 from .codec import install_all_codecs, make_atom
-from .common import raw, loop_keys
+from .common import harness_connection, raw, loop_keys
 
 ASSUMPTIONS = [
     'zlib: decompressobj().decompress(compress(x)) = x and len(compress(x)) >= 1 (uninterpreted inverse pair)',
@@ -852,7 +852,7 @@ class WriteSwitch(Unit):
         E = I.E
         enabled = bool(E.fork(2, 'enabled'))
         thr = E.new_int('thr')
-        conn = object.__new__(Connection)
+        conn = harness_connection()
         conn.__dict__.update(early_outgoing_packet_listeners=[], outgoing_packet_listeners=[], socket='SOCK',
                              options=types.SimpleNamespace(compression_enabled=enabled, compression_threshold=thr))
         calls = []
